@@ -23,9 +23,9 @@ RULE = ('case = seeded glitch-prone circuit + skewed delays + capacity fault pla
         'non-trivial iff an overflow occurred and at least one clear-flag output was compared with the unlimited run, or >= 2 ops of one level fed the same accumulator; distinct = distinct case digests')
 REAL_VS_STUB = {'real': ['kyupy.wave_sim: _wave_eval, level_eval_cpu, wave_eval_gpu (accumulation), wave_capture_cpu, wave_capture_gpu', 'kyupy.sim.SimOps (a_ctrl -> op columns 6..8)', 'MockCuda launcher + atomic.add'],
                 'stub': ['CUDA runtime -> SimCuda (order / interleave); atomic.add is one indivisible scheduler step']}
-ASSUMPTIONS = ['sd = 0 (s[8]/s[9] under capture-time uncertainty are outside the statement)', '"unlimited capacity" = 64 entries per waveform; cases in which even that overflows are skipped for the indicator clause and counted',
+ASSUMPTIONS = ['abuf is a 32-bit integer buffer; expected and actual sums are compared modulo 2**32 (weights up to 2**24+1 are generated)', 'sd = 0 (s[8]/s[9] under capture-time uncertainty are outside the statement)', '"unlimited capacity" = 64 entries per waveform; cases in which even that overflows are skipped for the indicator clause and counted',
                'accumulation tables are passed with len(lines)+3 rows (the documented len(lines) rows raise IndexError for gates without output line; recorded in DESIGN.md, outside this property)']
-EXPECTED_PROBES = ['overflow_occurred', 'clear_flag_compared', 'flag_set_seen', 'shared_accumulator_in_level', 'interleave_run', 'capture_time_at_transition', 'k_lt_sims']
+EXPECTED_PROBES = ['simulator_restored', 'overflow_occurred', 'clear_flag_compared', 'flag_set_seen', 'shared_accumulator_in_level', 'interleave_run', 'capture_time_at_transition', 'k_lt_sims']
 
 
 def gen(rng, tier, i):
@@ -50,6 +50,8 @@ def gen(rng, tier, i):
         cfgs.append({'cls': 'gpu', 'sched': wavegen.gen_interleave_sched(rng), 'block': wavegen.gen_block(rng, small=True)})
     if rng.random() < 0.25 and sims > 1:
         cfgs.append({'cls': rng.choice(['cpu', 'gpu']), 'k': rng.randint(1, sims - 1), 'block': wavegen.gen_block(rng)})
+    if len(batches) > 1 and rng.random() < 0.25:
+        cfgs.append({'cls': rng.choice(['cpu', 'gpu']), 'restore_after': [0], 'block': wavegen.gen_block(rng)})      # pickle round trip of the simulator after batch 0
     case['cfgs'] = cfgs
     return case
 
@@ -92,6 +94,7 @@ def execute(case):
         if (cfg.get('sched') or {}).get('mode') == 'interleave': res.probe('interleave_run'); res.fault('F-int')
         if cfg['cls'] == 'gpu': res.fault('F-ord')
         if cfg.get('k'): res.probe('k_lt_sims'); res.fault('F-lanes-k')
+        if cfg.get('restore_after'): res.probe('simulator_restored')
         res.log.add(label, [wsim.crc(o['s'][3:8]) for o in outs], [wsim.crc(o['abuf']) for o in outs])
         # ---- capture summary
         lanes_ok = range(cfg['k']) if cfg.get('k') else None
@@ -103,11 +106,14 @@ def execute(case):
         if case.get('actrl'):
             exp = expected_abuf(case, h, outs)
             for bno, (o, e) in enumerate(zip(outs, exp)):
+                if o['abuf'].ndim != 2 or o['abuf'].shape[1] != e.shape[1]:
+                    res.violate('abuf-mismatch', f'{label} batch {bno}: abuf has shape {o["abuf"].shape}, expected one column per lane ({e.shape[1]})')
+                    return res
                 got = np.zeros(e.shape, dtype=np.int64)
                 r0 = min(e.shape[0], o['abuf'].shape[0])
                 got[:r0] = o['abuf'][:r0].astype(np.int64)
-                if not np.array_equal(got, e):
-                    d = np.argwhere(got != e)[0]
+                if ((got - e) % (1 << 32)).any():      # abuf is a 32-bit integer buffer: sums are compared modulo 2**32
+                    d = np.argwhere((got - e) % (1 << 32))[0]
                     res.violate('abuf-mismatch', f'{label} batch {bno}: abuf[{d[0]},{d[1]}] = {got[d[0], d[1]] if d[0] < o["abuf"].shape[0] else "(no such row: abuf has %d rows)" % o["abuf"].shape[0]}, '
                                                  f'weighted transition count of the produced waveforms = {e[d[0], d[1]]}')
                     return res
